@@ -61,7 +61,7 @@ func genSpec(r *lib.Rng, shape string, withFail bool) (*e2e.Spec, []string) {
 	if shape == "chain" {
 		nt = r.Range(3, 5)
 	}
-	sleeps := []string{"0.05", "0.1", "0.15", "0.2", "0.3"}
+	sleeps := []string{"0.05", "0.1", "0.15", "0.2"}
 	failAt := -1
 	if withFail {
 		failAt = r.Intn(nt)
@@ -167,8 +167,9 @@ func closureOf(s *e2e.Spec, req []string) map[string]bool {
 }
 
 func genScenario(r *lib.Rng, idx int) scenario {
-	shape := lib.Pick(r, []string{"random", "random", "random", "chain", "same-target", "all", "shared-filegroup", "warm"})
-	withFail := idx%9 == 8
+	shapes := []string{"random", "chain", "same-target", "all", "shared-filegroup", "warm", "random", "random"}
+	shape := shapes[idx%len(shapes)]
+	withFail := idx%8 == 7
 	if withFail {
 		shape = "random"
 	}
@@ -493,7 +494,7 @@ func caseTerm(oc *outcome) string {
 		}
 	}
 	for _, c := range sc.Choices {
-		choices = append(choices, lib.Nat(c))
+		choices = append(choices, lib.N(uint64(c)))
 	}
 	return lib.App("Case", lib.List(ts), lib.StrList(sc.Warm), lib.List(reqs), lib.List(choices), lib.List(oks), lib.List(outs), lib.List(runs))
 }
@@ -596,8 +597,8 @@ func main() {
 			return
 		}
 
-		n := c.Scale(18, 400)
-		workers := 4
+		n := c.Scale(16, 400)
+		workers := 6
 		scs := make([]scenario, n)
 		for i := range scs {
 			scs[i] = genScenario(c.Rng.Fork(), i)
